@@ -195,9 +195,11 @@ pub open spec fn digit(d: int) -> char {
     else if d == 5 { '5' } else if d == 6 { '6' } else if d == 7 { '7' } else if d == 8 { '8' } else { '9' }
 }
 /// decimal numeral of n, no leading zeros
+#[verifier::opaque]
 pub open spec fn dec(n: nat) -> Seq<char> decreases n { if n < 10 { seq![digit(n as int)] } else { dec(n / 10).push(digit((n % 10) as int)) } }
 pub open spec fn letter(d: int) -> char { ((0x41 + d) as u8) as char }
 /// bijective base-26 numeral of n >= 1 over A..Z (A = 1 .. Z = 26, AA = 27 ..): spreadsheet column letters of column n - 1
+#[verifier::opaque]
 pub open spec fn b26(n: nat) -> Seq<char> decreases n { if n == 0 { Seq::empty() } else { b26(((n - 1) / 26) as nat).push(letter((n - 1) % 26)) } }
 /// letters of the 0-based column
 pub open spec fn col_name(col: int) -> Seq<char> { b26((col + 1) as nat) }
@@ -406,6 +408,7 @@ proof fn lemma_b26_unique(a: Seq<char>)
     ensures a == b26(b26c(a)),
     decreases a.len(),
 {
+    reveal_with_fuel(b26, 2);
     if a.len() == 0 {
         assert(a =~= Seq::<char>::empty());
     } else {
@@ -563,8 +566,8 @@ proof fn lemma_sb_empty(f: Seq<char>)
     ensures sorted_bnds(f, Seq::<usize>::empty()),
 { reveal(sorted_bnds); }
 
-// the labelled per-token obligations, by name: within the oracle's scope the text is what [MS-XLSB] says (`got`: what the arm appended /
-// the text after the arm; plain equality -- the extensional step `formula@ =~= f_in + got` is made once per arm)
+// the labelled per-token obligations, by name: within the oracle's scope the text is what [MS-XLSB] says.  `got`: what the arm appended
+// (plain equality; the regrouping of the arm's appends is done once, in the link lemmas below) / the whole text after an in-place arm
 pub open spec fn xlsb_attrsum_text(scope: bool, got: Seq<char>, want: Seq<char>) -> bool { scope ==> got =~= want }
 pub open spec fn xlsb_binary_operator_placed(scope: bool, got: Seq<char>, want: Seq<char>) -> bool { scope ==> got =~= want }
 pub open spec fn xlsb_binary_operator_text(scope: bool, got: Seq<char>, want: Seq<char>) -> bool { scope ==> got =~= want }
@@ -586,6 +589,42 @@ pub open spec fn xlsb_ptgreferr_text(scope: bool, got: Seq<char>, want: Seq<char
 pub open spec fn xlsb_ptgstr_text(scope: bool, got: Seq<char>, want: Seq<char>) -> bool { scope ==> got == want }
 pub open spec fn xlsb_unary_minus_text(scope: bool, got: Seq<char>, want: Seq<char>) -> bool { scope ==> got =~= want }
 pub open spec fn xlsb_unary_plus_text(scope: bool, got: Seq<char>, want: Seq<char>) -> bool { scope ==> got =~= want }
+
+// ---- link lemmas: the text after an arm, written exactly as the arm's statements build it (left-nested appends: matched by congruence
+// inside the 330-line function, no extensional reasoning there), regrouped here into `f + <what was appended>`
+proof fn lemma_link_empty(f: Seq<char>)
+    ensures f == f + Seq::<char>::empty(),
+{ assert(f =~= f + Seq::<char>::empty()); }
+/// `push_str(&format!("{}", x))`: the temporary String starts empty
+proof fn lemma_link_fmt(f: Seq<char>, t: Seq<char>, g: Seq<char>)
+    requires g == f + (Seq::<char>::empty() + t),
+    ensures g == f + t,
+{ assert(Seq::<char>::empty() + t =~= t); }
+/// sheet name, '!', then the rest
+proof fn lemma_link_sh(f: Seq<char>, sh: Seq<char>, t: Seq<char>, g: Seq<char>)
+    requires g == ((f + sh).push('!')) + t,
+    ensures g == f + (sh + seq!['!'] + t),
+{ assert(g =~= f + (sh + seq!['!'] + t)); }
+/// one corner: [`$`] column letters [`$`] row number
+proof fn lemma_link_cell(p: Seq<char>, col: u16, rw: int, g: Seq<char>)
+    requires g == (((p + dollar(col & 0x4000 == 0)) + col_name((col & 0x3FFF) as int)) + dollar(col & 0x8000 == 0)) + (Seq::<char>::empty() + dec((rw + 1) as nat)),
+    ensures g == p + code_cell(col, rw),
+{ assert(g =~= p + code_cell(col, rw)); }
+/// two corners with ':' between them
+proof fn lemma_link_area(p: Seq<char>, c1: Seq<char>, c2: Seq<char>, g: Seq<char>)
+    requires g == (p + c1).push(':') + c2,
+    ensures g == p + (c1 + seq![':'] + c2),
+{ assert(g =~= p + (c1 + seq![':'] + c2)); }
+/// PtgRef: flags tested on the high byte of the column field
+proof fn lemma_link_ref(f: Seq<char>, d5: u8, cn: Seq<char>, rt: Seq<char>, g: Seq<char>)
+    requires g == (((f + dollar(d5 & 0x40 != 0x40)) + cn) + dollar(d5 & 0x80 != 0x80)) + (Seq::<char>::empty() + rt),
+    ensures g == f + (dollar(d5 & 0x40 != 0x40) + cn + dollar(d5 & 0x80 != 0x80) + rt),
+{ assert(g =~= f + (dollar(d5 & 0x40 != 0x40) + cn + dollar(d5 & 0x80 != 0x80) + rt)); }
+/// PtgStr: '"', the body, '"'
+proof fn lemma_link_str(f: Seq<char>, body: Seq<char>, g: Seq<char>)
+    requires g == (f.push('"') + body).push('"'),
+    ensures g == f + (seq!['"'] + body + seq!['"']),
+{ assert(g =~= f + (seq!['"'] + body + seq!['"'])); }
 
 /// text without a double quote is its own quoted body
 proof fn lemma_dq_plain(t: Seq<char>)
@@ -845,34 +884,101 @@ let col = verif_pair_u16(rgce[4], rgce[5] & 0x3F);
                         assert(stack@ =~= st_in.push(blen(f_in) as usize));
                         lemma_S_push(f_in, st_in, t);
                     }
+//@@ before /if col & 0x4000 == 0 \{\s*formula\.push\('\$'\);\s*\}/#0of5
+                let ghost fp_c0 = formula@;
+//@@ after /if col & 0x4000 == 0 \{\s*formula\.push\('\$'\);\s*\}/#0of5
+                proof { assert(formula@ =~= fp_c0 + dollar(col & 0x4000 == 0)); }
+//@@ before /if col & 0x8000 == 0 \{\s*formula\.push\('\$'\);\s*\}/#0of5
+                let ghost fp_r0 = formula@;
+//@@ after /if col & 0x8000 == 0 \{\s*formula\.push\('\$'\);\s*\}/#0of5
+                proof { assert(formula@ =~= fp_r0 + dollar(col & 0x8000 == 0)); }
+//@@ before /if col & 0x4000 == 0 \{\s*formula\.push\('\$'\);\s*\}/#1of5
+                let ghost fp_c1 = formula@;
+//@@ after /if col & 0x4000 == 0 \{\s*formula\.push\('\$'\);\s*\}/#1of5
+                proof { assert(formula@ =~= fp_c1 + dollar(col & 0x4000 == 0)); }
+//@@ before /if col & 0x8000 == 0 \{\s*formula\.push\('\$'\);\s*\}/#1of5
+                let ghost fp_r1 = formula@;
+//@@ after /if col & 0x8000 == 0 \{\s*formula\.push\('\$'\);\s*\}/#1of5
+                proof { assert(formula@ =~= fp_r1 + dollar(col & 0x8000 == 0)); }
+//@@ before /if col & 0x4000 == 0 \{\s*formula\.push\('\$'\);\s*\}/#2of5
+                let ghost fp_c2 = formula@;
+//@@ after /if col & 0x4000 == 0 \{\s*formula\.push\('\$'\);\s*\}/#2of5
+                proof { assert(formula@ =~= fp_c2 + dollar(col & 0x4000 == 0)); }
+//@@ before /if col & 0x8000 == 0 \{\s*formula\.push\('\$'\);\s*\}/#2of5
+                let ghost fp_r2 = formula@;
+//@@ after /if col & 0x8000 == 0 \{\s*formula\.push\('\$'\);\s*\}/#2of5
+                proof { assert(formula@ =~= fp_r2 + dollar(col & 0x8000 == 0)); }
+//@@ before /if col & 0x4000 == 0 \{\s*formula\.push\('\$'\);\s*\}/#3of5
+                let ghost fp_c3 = formula@;
+//@@ after /if col & 0x4000 == 0 \{\s*formula\.push\('\$'\);\s*\}/#3of5
+                proof { assert(formula@ =~= fp_c3 + dollar(col & 0x4000 == 0)); }
+//@@ before /if col & 0x8000 == 0 \{\s*formula\.push\('\$'\);\s*\}/#3of5
+                let ghost fp_r3 = formula@;
+//@@ after /if col & 0x8000 == 0 \{\s*formula\.push\('\$'\);\s*\}/#3of5
+                proof { assert(formula@ =~= fp_r3 + dollar(col & 0x8000 == 0)); }
+//@@ before /if col & 0x4000 == 0 \{\s*formula\.push\('\$'\);\s*\}/#4of5
+                let ghost fp_c4 = formula@;
+//@@ after /if col & 0x4000 == 0 \{\s*formula\.push\('\$'\);\s*\}/#4of5
+                proof { assert(formula@ =~= fp_c4 + dollar(col & 0x4000 == 0)); }
+//@@ before /if col & 0x8000 == 0 \{\s*formula\.push\('\$'\);\s*\}/#4of5
+                let ghost fp_r4 = formula@;
+//@@ after /if col & 0x8000 == 0 \{\s*formula\.push\('\$'\);\s*\}/#4of5
+                proof { assert(formula@ =~= fp_r4 + dollar(col & 0x8000 == 0)); }
+//@@ before /if rgce\[5\] & 0x40 != 0x40 \{\s*formula\.push\('\$'\);\s*\}/
+                let ghost fq_c = formula@;
+//@@ after /if rgce\[5\] & 0x40 != 0x40 \{\s*formula\.push\('\$'\);\s*\}/
+                proof { assert(formula@ =~= fq_c + dollar(rgce@[5] & 0x40 != 0x40)); }
+//@@ before /if rgce\[5\] & 0x80 != 0x80 \{\s*formula\.push\('\$'\);\s*\}/
+                let ghost fq_r = formula@;
+//@@ after /if rgce\[5\] & 0x80 != 0x80 \{\s*formula\.push\('\$'\);\s*\}/
+                proof { assert(formula@ =~= fq_r + dollar(rgce@[5] & 0x80 != 0x80)); }
 //@@ before /formula\.push_str\(op\);/
                 //# C14.xlsb_binary_operator_text
                 assert(xlsb_binary_operator_text(true, op@, binop(ptg as int)));
+//@@ before /formula\.push\(':'\);/#0of2
+                let ghost g1_0 = formula@;
+                let ghost col1_0 = col;
+//@@ before /formula\.push\(':'\);/#1of2
+                let ghost g1_1 = formula@;
+                let ghost col1_1 = col;
 //@@ before /\}\n {12}0x3b \| 0x5b \| 0x7b => \{/
                 proof {
                     assert(stack@ =~= st_in.push(blen(f_in) as usize));
-                    let got = sheets@[ixti as int]@ + seq!['!'] + code_cell(le16(d_in.subrange(6, 8)) as u16, le32(d_in.subrange(2, 6)));
-                    assert(formula@ =~= f_in + got);
+                    let sh = sheets@[ixti as int]@;
+                    let rw = le32(d_in.subrange(2, 6));
+                    lemma_link_cell((f_in + sh).push('!'), col, rw, formula@);
+                    lemma_link_sh(f_in, sh, code_cell(col, rw), formula@);
+                    let got = sh + seq!['!'] + code_cell(col, rw);
+                    assert(formula@ == f_in + got);
                     lemma_S_push(f_in, st_in, got);
-                    lemma_xlsb_ptgref3d_text(sheets@[ixti as int]@, d_in, got);
+                    lemma_xlsb_ptgref3d_text(sh, d_in, got);
                     //# C14.xlsb_ptgref3d_text
                     assert(xlsb_ptgref3d_text(le16(d_in) < ctx.sheets.len() && xb_row_ok(le32(d_in.skip(2))), got, ctx.sheets[le16(d_in)] + seq!['!'] + xb_cell(d_in.skip(2))));
                 }
 //@@ before /\}\n {12}0x3c \| 0x5c \| 0x7c => \{/
                 proof {
                     assert(stack@ =~= st_in.push(blen(f_in) as usize));
-                    let got = sheets@[ixti as int]@ + seq!['!'] + code_cell(le16(d_in.subrange(10, 12)) as u16, le32(d_in.subrange(2, 6))) + seq![':'] + code_cell(le16(d_in.subrange(12, 14)) as u16, le32(d_in.subrange(6, 10)));
-                    assert(formula@ =~= f_in + got);
+                    let sh = sheets@[ixti as int]@;
+                    let rw1 = le32(d_in.subrange(2, 6));
+                    let rw2 = le32(d_in.subrange(6, 10));
+                    lemma_link_cell((f_in + sh).push('!'), col1_0, rw1, g1_0);
+                    lemma_link_cell(g1_0.push(':'), col, rw2, formula@);
+                    lemma_link_area((f_in + sh).push('!'), code_cell(col1_0, rw1), code_cell(col, rw2), formula@);
+                    lemma_link_sh(f_in, sh, code_cell(col1_0, rw1) + seq![':'] + code_cell(col, rw2), formula@);
+                    let got = sh + seq!['!'] + (code_cell(col1_0, rw1) + seq![':'] + code_cell(col, rw2));
+                    assert(formula@ == f_in + got);
                     lemma_S_push(f_in, st_in, got);
-                    lemma_xlsb_ptgarea3d_text(sheets@[ixti as int]@, d_in, got);
+                    lemma_xlsb_ptgarea3d_text(sh, d_in, got);
                     //# C14.xlsb_ptgarea3d_text
                     assert(xlsb_ptgarea3d_text(le16(d_in) < ctx.sheets.len() && xb_row_ok(le32(d_in.skip(2))) && xb_row_ok(le32(d_in.skip(6))), got, ctx.sheets[le16(d_in)] + seq!['!'] + xb_area(d_in.skip(2))));
                 }
 //@@ before /\}\n {12}0x3d \| 0x5d \| 0x7d => \{/
                 proof {
                     assert(stack@ =~= st_in.push(blen(f_in) as usize));
-                    let got = sheets@[ixti as int]@ + seq!['!'] + "#REF!"@;
-                    assert(formula@ =~= f_in + got);
+                    let sh = sheets@[ixti as int]@;
+                    lemma_link_sh(f_in, sh, "#REF!"@, formula@);
+                    let got = sh + seq!['!'] + "#REF!"@;
+                    assert(formula@ == f_in + got);
                     lemma_S_push(f_in, st_in, got);
                     //# C14.xlsb_ptgreferr3d_text
                     assert(xlsb_ptgreferr3d_text(le16(d_in) < ctx.sheets.len(), got, ctx.sheets[le16(d_in)] + seq!['!'] + "#REF!"@));
@@ -880,8 +986,10 @@ let col = verif_pair_u16(rgce[4], rgce[5] & 0x3F);
 //@@ before /\}\n {12}0x01 => \{/
                 proof {
                     assert(stack@ =~= st_in.push(blen(f_in) as usize));
-                    let got = sheets@[ixti as int]@ + seq!['!'] + "#REF!"@;
-                    assert(formula@ =~= f_in + got);
+                    let sh = sheets@[ixti as int]@;
+                    lemma_link_sh(f_in, sh, "#REF!"@, formula@);
+                    let got = sh + seq!['!'] + "#REF!"@;
+                    assert(formula@ == f_in + got);
                     lemma_S_push(f_in, st_in, got);
                     //# C14.xlsb_ptgareaerr3d_text
                     assert(xlsb_ptgareaerr3d_text(le16(d_in) < ctx.sheets.len(), got, ctx.sheets[le16(d_in)] + seq!['!'] + "#REF!"@));
@@ -889,9 +997,10 @@ let col = verif_pair_u16(rgce[4], rgce[5] & 0x3F);
 //@@ before /\}\n {12}0x03\.\.=0x11 => \{/
                 proof {
                     assert(stack@ =~= st_in.push(blen(f_in) as usize));
-                    let t = formula@.skip(f_in.len() as int);
-                    assert(formula@ =~= f_in + t);
-                    lemma_S_push(f_in, st_in, t);
+                    lemma_link_empty(f_in);
+                    let got = Seq::<char>::empty();
+                    assert(formula@ == f_in + got);
+                    lemma_S_push(f_in, st_in, got);
                 }
 //@@ before /\}\n {12}0x12 => \{/
                 proof {
@@ -934,8 +1043,9 @@ let col = verif_pair_u16(rgce[4], rgce[5] & 0x3F);
 //@@ before /\}\n {12}0x17 => \{/
                 proof {
                     assert(stack@ =~= st_in.push(blen(f_in) as usize));
+                    lemma_link_empty(f_in);
                     let got = Seq::<char>::empty();
-                    assert(formula@ =~= f_in + got);
+                    assert(formula@ == f_in + got);
                     lemma_S_push(f_in, st_in, got);
                     //# C14.xlsb_ptgmissarg_text
                     assert(xlsb_ptgmissarg_text(true, got, Seq::<char>::empty()));
@@ -943,18 +1053,22 @@ let col = verif_pair_u16(rgce[4], rgce[5] & 0x3F);
 //@@ before /\}\n {12}0x18 => \{/
                 proof {
                     assert(stack@ =~= st_in.push(blen(f_in) as usize));
-                    let got = quoted(if has_bom(d_in.subrange(2, 2 + 2 * le16(d_in))) { dec_sniffed(d_in.subrange(2, 2 + 2 * le16(d_in))) } else { dec16(d_in.subrange(2, 2 + 2 * le16(d_in))) });
-                    assert(formula@ =~= f_in + got);
+                    let by = d_in.subrange(2, 2 + 2 * le16(d_in));
+                    let chars = if has_bom(by) { dec_sniffed(by) } else { dec16(by) };
+                    lemma_link_str(f_in, dq(chars), formula@);
+                    let got = quoted(chars);
+                    assert(formula@ == f_in + got);
                     lemma_S_push(f_in, st_in, got);
                     //# C14.xlsb_ptgstr_text
-                    assert(xlsb_ptgstr_text(!has_bom(d_in.subrange(2, 2 + 2 * le16(d_in))), got, quoted(dec16(d_in.subrange(2, 2 + 2 * le16(d_in))))));
+                    assert(xlsb_ptgstr_text(!has_bom(by), got, quoted(dec16(by))));
                 }
 //@@ before /\}\n {12}0x19 => \{/
                 proof {
                     assert(stack@ =~= st_in.push(blen(f_in) as usize));
-                    let t = formula@.skip(f_in.len() as int);
-                    assert(formula@ =~= f_in + t);
-                    lemma_S_push(f_in, st_in, t);
+                    lemma_link_empty(f_in);
+                    let got = Seq::<char>::empty();
+                    assert(formula@ == f_in + got);
+                    lemma_S_push(f_in, st_in, got);
                 }
 //@@ before /\}\n {12}0x1C => \{/
                 proof {
@@ -965,7 +1079,7 @@ let col = verif_pair_u16(rgce[4], rgce[5] & 0x3F);
                         //# C14.xlsb_attrsum_text
                         assert(xlsb_attrsum_text(true, formula@, f_in.take(kl) + "SUM("@ + f_in.skip(kl) + seq![')']));
                     } else {
-                        assert(formula@ =~= f_in + Seq::<char>::empty());
+                        lemma_link_empty(f_in);
                         lemma_S_grow(f_in, st_in, Seq::<char>::empty());
                     }
                 }
@@ -973,7 +1087,7 @@ let col = verif_pair_u16(rgce[4], rgce[5] & 0x3F);
                 proof {
                     assert(stack@ =~= st_in.push(blen(f_in) as usize));
                     let got = err_text(d_in[0] as int)->Some_0;
-                    assert(formula@ =~= f_in + got);
+                    assert(formula@ == f_in + got);
                     lemma_S_push(f_in, st_in, got);
                     //# C14.xlsb_ptgerr_text
                     assert(xlsb_ptgerr_text(err_text(d_in[0] as int) is Some, got, err_text(d_in[0] as int)->Some_0));
@@ -982,7 +1096,7 @@ let col = verif_pair_u16(rgce[4], rgce[5] & 0x3F);
                 proof {
                     assert(stack@ =~= st_in.push(blen(f_in) as usize));
                     let got = (if d_in[0] == 0 { "FALSE"@ } else { "TRUE"@ });
-                    assert(formula@ =~= f_in + got);
+                    assert(formula@ == f_in + got);
                     lemma_S_push(f_in, st_in, got);
                     //# C14.xlsb_ptgbool_text
                     assert(xlsb_ptgbool_text(d_in[0] <= 1, got, (if d_in[0] == 0 { "FALSE"@ } else { "TRUE"@ })));
@@ -990,8 +1104,9 @@ let col = verif_pair_u16(rgce[4], rgce[5] & 0x3F);
 //@@ before /\}\n {12}0x1F => \{/
                 proof {
                     assert(stack@ =~= st_in.push(blen(f_in) as usize));
+                    lemma_link_fmt(f_in, dec(le16(d_in) as nat), formula@);
                     let got = dec(le16(d_in) as nat);
-                    assert(formula@ =~= f_in + got);
+                    assert(formula@ == f_in + got);
                     lemma_S_push(f_in, st_in, got);
                     //# C14.xlsb_ptgint_text
                     assert(xlsb_ptgint_text(true, got, dec(le16(d_in) as nat)));
@@ -999,8 +1114,9 @@ let col = verif_pair_u16(rgce[4], rgce[5] & 0x3F);
 //@@ before /\}\n {12}0x20 \| 0x40 \| 0x60 => \{/
                 proof {
                     assert(stack@ =~= st_in.push(blen(f_in) as usize));
+                    lemma_link_fmt(f_in, display::<f64>(f64_of_bits(le64(d_in))), formula@);
                     let got = display::<f64>(f64_of_bits(le64(d_in)));
-                    assert(formula@ =~= f_in + got);
+                    assert(formula@ == f_in + got);
                     lemma_S_push(f_in, st_in, got);
                     //# C14.xlsb_ptgnum_text
                     assert(xlsb_ptgnum_text(true, got, display::<f64>(f64_of_bits(le64(d_in)))));
@@ -1008,17 +1124,19 @@ let col = verif_pair_u16(rgce[4], rgce[5] & 0x3F);
 //@@ before /\}\n {12}0x21 \| 0x22 \| 0x41 \| 0x42 \| 0x61 \| 0x62 => \{/
                 proof {
                     assert(stack@ =~= st_in.push(blen(f_in) as usize));
-                    let t = formula@.skip(f_in.len() as int);
-                    assert(formula@ =~= f_in + t);
-                    lemma_S_push(f_in, st_in, t);
+                    lemma_link_empty(f_in);
+                    let got = Seq::<char>::empty();
+                    assert(formula@ == f_in + got);
+                    lemma_S_push(f_in, st_in, got);
                 }
 //@@ before /\}\n {12}0x23 \| 0x43 \| 0x63 => \{/
                 proof { }
 //@@ before /\}\n {12}0x24 \| 0x44 \| 0x64 => \{/
                 proof {
                     assert(stack@ =~= st_in.push(blen(f_in) as usize));
+                    if !(1 <= le32(d_in) <= names@.len()) { lemma_link_empty(f_in); }
                     let got = (if 1 <= le32(d_in) <= names@.len() { names@[le32(d_in) - 1].0@ } else { Seq::<char>::empty() });
-                    assert(formula@ =~= f_in + got);
+                    assert(formula@ == f_in + got);
                     lemma_S_push(f_in, st_in, got);
                     //# C14.xlsb_ptgname_text
                     assert(xlsb_ptgname_text(1 <= le32(d_in) <= ctx.names.len(), got, ctx.names[le32(d_in) - 1]));
@@ -1026,8 +1144,9 @@ let col = verif_pair_u16(rgce[4], rgce[5] & 0x3F);
 //@@ before /\}\n {12}0x25 \| 0x45 \| 0x65 => \{/
                 proof {
                     assert(stack@ =~= st_in.push(blen(f_in) as usize));
+                    lemma_link_ref(f_in, d_in[5], col_name(col as int), dec(row as nat), formula@);
                     let got = dollar(d_in[5] & 0x40 != 0x40) + col_name(col as int) + dollar(d_in[5] & 0x80 != 0x80) + dec(row as nat);
-                    assert(formula@ =~= f_in + got);
+                    assert(formula@ == f_in + got);
                     lemma_S_push(f_in, st_in, got);
                     lemma_xlsb_ptgref_text(d_in, row as int, col as int, got);
                     //# C14.xlsb_ptgref_text
@@ -1036,8 +1155,13 @@ let col = verif_pair_u16(rgce[4], rgce[5] & 0x3F);
 //@@ before /\}\n {12}0x2A \| 0x4A \| 0x6A => \{/
                 proof {
                     assert(stack@ =~= st_in.push(blen(f_in) as usize));
-                    let got = code_cell(le16(d_in.subrange(8, 10)) as u16, le32(d_in.subrange(0, 4))) + seq![':'] + code_cell(le16(d_in.subrange(10, 12)) as u16, le32(d_in.subrange(4, 8)));
-                    assert(formula@ =~= f_in + got);
+                    let rw1 = le32(d_in.subrange(0, 4));
+                    let rw2 = le32(d_in.subrange(4, 8));
+                    lemma_link_cell(f_in, col1_1, rw1, g1_1);
+                    lemma_link_cell(g1_1.push(':'), col, rw2, formula@);
+                    lemma_link_area(f_in, code_cell(col1_1, rw1), code_cell(col, rw2), formula@);
+                    let got = code_cell(col1_1, rw1) + seq![':'] + code_cell(col, rw2);
+                    assert(formula@ == f_in + got);
                     lemma_S_push(f_in, st_in, got);
                     lemma_xlsb_ptgarea_text(d_in, got);
                     //# C14.xlsb_ptgarea_text
@@ -1047,7 +1171,7 @@ let col = verif_pair_u16(rgce[4], rgce[5] & 0x3F);
                 proof {
                     assert(stack@ =~= st_in.push(blen(f_in) as usize));
                     let got = "#REF!"@;
-                    assert(formula@ =~= f_in + got);
+                    assert(formula@ == f_in + got);
                     lemma_S_push(f_in, st_in, got);
                     //# C14.xlsb_ptgreferr_text
                     assert(xlsb_ptgreferr_text(true, got, "#REF!"@));
@@ -1056,7 +1180,7 @@ let col = verif_pair_u16(rgce[4], rgce[5] & 0x3F);
                 proof {
                     assert(stack@ =~= st_in.push(blen(f_in) as usize));
                     let got = "#REF!"@;
-                    assert(formula@ =~= f_in + got);
+                    assert(formula@ == f_in + got);
                     lemma_S_push(f_in, st_in, got);
                     //# C14.xlsb_ptgareaerr_text
                     assert(xlsb_ptgareaerr_text(true, got, "#REF!"@));
@@ -1064,16 +1188,16 @@ let col = verif_pair_u16(rgce[4], rgce[5] & 0x3F);
 //@@ before /\}\n {12}0x39 \| 0x59 \| 0x79 => \{/
                 proof {
                     assert(stack@ =~= st_in.push(blen(f_in) as usize));
-                    let t = formula@.skip(f_in.len() as int);
-                    assert(formula@ =~= f_in + t);
-                    lemma_S_push(f_in, st_in, t);
+                    let got = f@;
+                    assert(formula@ == f_in + got);
+                    lemma_S_push(f_in, st_in, got);
                 }
 //@@ before /\}\n {12}_ => return Err\(XlsbError::Ptg\(ptg\)\)/
                 proof {
                     assert(stack@ =~= st_in.push(blen(f_in) as usize));
-                    let t = formula@.skip(f_in.len() as int);
-                    assert(formula@ =~= f_in + t);
-                    lemma_S_push(f_in, st_in, t);
+                    let got = "EXTERNAL_WB_NAME"@;
+                    assert(formula@ == f_in + got);
+                    lemma_S_push(f_in, st_in, got);
                 }
 //@@ end
 }
